@@ -119,6 +119,8 @@ def showErr : Err → String
   | .dvValuesMissing => "err typecheck ValuesMissingForUdtFields"
   | .dvFieldDeserFailed => "err deser FieldDeserializationFailed"
   | .dvNullUdt => "err deser ExpectedNonNull"
+  | .svNotUdt => "err ser NotUdt"
+  | .dvNotUdt => "err typecheck NotUdt"
   | .drWrongColumnCount => "err typecheck WrongColumnCount"
   | .drColumnNameMismatch => "err typecheck ColumnNameMismatch"
   | .drColumnTypeCheckFailed => "err typecheck ColumnTypeCheckFailed"
@@ -153,6 +155,9 @@ def run (case _impl : String) : String :=
     | op :: _name :: flavor :: snc :: forbid :: n :: fieldToks =>
       -- `dv … ; … ; NULL`: the whole UDT value is null
       let wholeNull := op == "dv" && vals == ["NULL"]
+      -- column section `-:notudt`: the CQL type handed to the generated code is not a UDT (plain `int`)
+      let notUdt := (op == "sv" || op == "dv") && cols == ["-:notudt"]
+      let cols := if notUdt then [] else cols
       match (if flavor == "bn" then some Flavor.byName else if flavor == "ord" then some Flavor.ordered else none),
             bit snc, bit forbid, n.toNat?, cols.mapM parseCol, (if wholeNull then some [] else vals.mapM parseVal) with
       | some flavor, some snc, some forbid, some n, some db, some vs =>
@@ -163,7 +168,7 @@ def run (case _impl : String) : String :=
           if op == "sv" || op == "sr" then
             if leaves.length != vs.length || !((leaves.zip vs).all (fun p => valOk p.1 p.2)) then "bad-case"
             else if op == "sv" then
-              (if isFlat pfs then showRes (serValue d (leaves.zip vs) db) else "bad-case")
+              (if isFlat pfs then showRes (serValueAt d (leaves.zip vs) (if notUdt then none else some db)) else "bad-case")
             else
               match attachList pfs vs with
               | some (rfs, []) =>
@@ -177,7 +182,9 @@ def run (case _impl : String) : String :=
                 else showRes nested
               | _ => "bad-case"
           else if op == "dv" then
-            (if isFlat pfs then showRes (deserValueOpt d db (if wholeNull then none else some vs)) else "bad-case")
+            (if isFlat pfs then
+              showRes (deserValueAt d (if notUdt then none else some db) (if wholeNull then none else some vs))
+             else "bad-case")
           else if op == "dr" then
             (if isFlat pfs then showRes (deserRow d db vs) else "bad-case")
           else "bad-case"
